@@ -79,6 +79,11 @@ static void body(Env& env, const std::string& stage, int n, const dom::Alphabet&
         for (int bu = 0; bu < 2; bu++) { AutBase::ProductTranslMap pm; ExplicitTreeAut r = bu ? ExplicitTreeAut::IntersectionBU(a, a, &pm) : ExplicitTreeAut::Intersection(a, a, &pm);
           if (!ref::equalLang(dom::readBack(r), A)) c.viol(bu ? "IntersectionBU(aliased)" : "Intersection(aliased)", "language_not_the_intersection", {}, det("both operands are the same object; result: " + dom::readBack(r).str()), w); }
         if (dom::readBack(a) != A) c.viol("aliased", "operand_changed", {}, det(""), w); }
+      // ---- huge sparse state numbers (A on 1000003q+17, B on 2^40+3q): languages are invariant under renaming, so the references are those of the small pair
+      { ExplicitTreeAut aH = dom::build(ref::mapStatesF(A, [](size_t q) { return (size_t)1000003 * q + 17; })), bH = dom::build(ref::mapStatesF(B, [](size_t q) { return ((size_t)1 << 40) + 3 * q; })); std::vector<std::string> fH = {"huge_sparse_state_numbers"}; c.count("huge_number_pairs");
+        { ExplicitTreeAut r = ExplicitTreeAut::Union(aH, bH); if (!ref::equalLang(dom::readBack(r), U)) c.viol("Union(nomaps)", "language_not_the_union", fH, det("A on 1000003q+17, B on 2^40+3q"), w); }
+        { ExplicitTreeAut r = ExplicitTreeAut::UnionDisjointStates(aH, bH); if (!ref::equalLang(dom::readBack(r), U)) c.viol("UnionDisjointStates", "language_not_the_union", fH, det("A on 1000003q+17, B on 2^40+3q"), w); }
+        for (int bu = 0; bu < 2; bu++) { ExplicitTreeAut r = bu ? ExplicitTreeAut::IntersectionBU(aH, bH) : ExplicitTreeAut::Intersection(aH, bH); if (!ref::equalLang(dom::readBack(r), prod)) c.viol(bu ? "IntersectionBU(nomap)" : "Intersection(nomap)", "language_not_the_intersection", fH, det("A on 1000003q+17, B on 2^40+3q"), w); } }
       // ---- the same pair built from a COMMON ANCESTOR: anc = A meet B (the rules and final states both have); a2, b2 = copies of anc to which the rest is added.
       //      The operands then share every copy-on-write level the additions did not touch (the whole rule map when the rule sets coincide).
       { ref::TA C; for (auto& r : A.rules) if (B.rules.count(r)) C.rules.insert(r); for (auto q : A.finals) if (B.finals.count(q)) C.finals.insert(q);
